@@ -326,6 +326,19 @@ pub fn c01_families(tier: &str) -> Vec<SeqSpec> {
     ab.push(Op::Flush);
     ab.extend(reopen_ops(2));
     v.push(spec("F-bytes", &["M2b", "T300n"], k5(), ab, if t { 3 } else { 2 }, READS));
+    // a WAL written with a large memtable budget, replayed with a small one: the recovery itself
+    // has to flush several memtables while reading the log
+    v.push(
+        spec(
+            "F-reopen-shrink",
+            &["D", "R", "M2n", "Rn"],
+            k3(),
+            vec![Op::Reopen(1), Op::Reopen(2), Op::Reopen(3), Op::Reopen(0), Op::Put(0, 0), Op::Del(1), Op::Batch(vec![(1, true), (2, true)]), Op::Compact(None, None)],
+            if t { 6 } else { 4 },
+            READS,
+        )
+        .with_setup(vec![Op::Put(0, 0), Op::Put(1, 0), Op::Put(2, 0), Op::Del(0), Op::Put(1, 0), Op::Batch(vec![(0, true), (2, true)]), Op::Del(2), Op::Put(2, 0)]),
+    );
     v.push(trivial_move_family(t, READS));
     v.push(rich_family("F-rich/T300", k3s(), a1(), if t { 6 } else { 4 }, READS));
     v
